@@ -703,3 +703,11 @@ def _c02(name):
 
 
 RULES.append(("C10.WINDOW", "opt_execute never reads a command past the log: the loop bound is the appended command's index (a read past it panics inside optimize(); shared with C02.WINDOW)", _c02("rule_window")))
+
+
+def _codeapi(ctx, R):
+    from . import p_c01
+    return p_c01.rule_codeapi(ctx, R)
+
+
+RULES.append(("C10.CODEAPI", "the words kind / syllable count / dot count / area count / area mean the fields of the command record: getters and constructors of UnOptCode and OptCode (shared with C01.CODEAPI)", _codeapi))
